@@ -23,7 +23,7 @@ fn monitors() -> Monitors {
 fn hist_cfg(n_ops: usize, pass: usize, thorough: bool) -> HistCfg {
     HistCfg {
         n_ops,
-        gen: GenCfg { max_cols: if thorough { 12 } else { 6 }, huge_strings: true, invalid_pct: 3, big_batch_one_in: 25, ..Default::default() },
+        gen: GenCfg { max_cols: if thorough { 12 } else { 6 }, huge_strings: true, invalid_pct: 3, big_batch_one_in: 90, ..Default::default() },
         mon: monitors(),
         close_pass: Some(pass),
         random_close_pct: 0,
